@@ -21,6 +21,8 @@ package config
 //@   ensures icmp6-admits-icmpv6 [C06]: err == nil && (u.Scheme == "icmp6" || u.Scheme == "ping6") ==> len(policyKeys) == 1 && policyKeys[0] == policykey(58, 0)
 //@   ensures other-schemes-refused [C06]: err == nil ==> (u.Scheme == "tcp" || u.Scheme == "udp" || u.Scheme == "http" || u.Scheme == "https" || u.Scheme == "icmp6" || u.Scheme == "ping6")
 //@   ensures port-range [C06]: err == nil ==> 0 <= port && port <= 65535
+//@   ensures explicit-port-wins [C06]: err == nil && u.Scheme != "icmp6" && u.Scheme != "ping6" && uf("urlport", string, u) != "" ==> uint64(port) == uf("parseuint", uint64, uf("urlport", string, u))
+//@   ensures default-ports [C06]: err == nil && uf("urlport", string, u) == "" ==> ((u.Scheme == "http" ==> port == 80) && (u.Scheme == "https" ==> port == 443))
 
 // Default deny: traffic is admitted only if a service defines exactly this protocol and port and its rule admits the sender.
 //@ func Config.CheckInboundTrafficPolicy
